@@ -8,6 +8,7 @@ mod catalog;
 mod h_assert;
 mod h_c08;
 mod h_cmp;
+mod h_conv;
 mod h_html;
 mod h_list;
 mod h_parse;
@@ -35,6 +36,8 @@ const ENTRIES: &[(&str, Entry)] = &[
     ("h_c08_dtype", h_c08::h_c08_dtype),
     ("h_c08_exponent_text", h_c08::h_c08_exponent_text),
     ("h_c08_dtype_text", h_c08::h_c08_dtype_text),
+    ("h_c04_convert", h_conv::h_c04_convert),
+    ("h_c04_scaling", h_conv::h_c04_scaling),
     ("h_c10_parse", h_parse::h_c10_parse),
     ("h_c18_step", h_list::h_c18_step),
     ("h_c18_hist", h_list::h_c18_hist),
